@@ -513,6 +513,11 @@ func parseClause(c *Contract, t string, line int) error {
 			kw = after[:i]
 		}
 		tags, body := parseTags(strings.TrimSpace(after[len(kw):]))
+		checkOnly := false
+		if kw == "exitcheck" {
+			// like "exit", but only asserted: the fact is not carried into the code after the loop
+			kw, checkOnly = "exit", true
+		}
 		if kw != "invariant" && kw != "decreases" && kw != "exit" {
 			return fmt.Errorf("bad loop clause kind %q", kw)
 		}
@@ -520,7 +525,7 @@ func parseClause(c *Contract, t string, line int) error {
 		if err != nil {
 			return fmt.Errorf("loop %d %s: %v", n, kw, err)
 		}
-		c.Clauses = append(c.Clauses, &Clause{Kind: kw, Loop: n, Tags: tags, Text: body, Expr: e, Line: line})
+		c.Clauses = append(c.Clauses, &Clause{Kind: kw, Loop: n, Tags: tags, Text: body, Expr: e, Line: line, CheckOnly: checkOnly})
 	default:
 		return fmt.Errorf("unknown clause %q", word)
 	}
